@@ -326,3 +326,68 @@ def callee_path(t):
     if "indirect" in c:
         return "<indirect>"
     return c.get("resolved") or c["path"]
+
+
+# ---- Option tests --------------------------------------------------------------------------
+
+def _try_subject(t):
+    """X when t is `Try::branch(X)` of an Option (the `?` operator), else None"""
+    s_ = P.strip(t, calls=False)
+    if s_[0] == "call" and s_[1].rsplit("::", 1)[-1] == "branch" and "Option" in s_[1] and len(s_[2]) == 1:
+        return s_[2][0]
+    return None
+
+
+def option_edges(fn, pr, is_subject):
+    """(block, label, 'some'|'none') for every edge testing whether an Option subject is Some / None: a match / if-let on its
+    discriminant, is_some()/is_none(), or the `?` operator (ControlFlow::Continue = Some)"""
+    out = []
+    for b in sorted(fn.cfg.reachable):
+        t = fn.blocks[b]["term"]
+        if t["k"] != "switch":
+            continue
+        on = pr.operand(t["on"])
+        vals = [v for v, _ in t["arms"]]
+        if on[0] == "discr" and is_subject(on[1]):
+            for lab, _tgt in fn.cfg.succ_edges[b]:
+                if lab == "otherwise":
+                    rest = {0, 1} - set(vals)
+                    if len(rest) == 1:
+                        out.append((b, lab, "some" if rest.pop() == 1 else "none"))
+                elif lab in (0, 1):
+                    out.append((b, lab, "some" if lab == 1 else "none"))
+        elif on[0] == "discr" and _try_subject(on[1]) is not None and is_subject(_try_subject(on[1])):
+            for lab, _tgt in fn.cfg.succ_edges[b]:
+                if lab == "otherwise":
+                    rest = {0, 1} - set(vals)
+                    if len(rest) == 1:
+                        out.append((b, lab, "some" if rest.pop() == 0 else "none"))
+                elif lab in (0, 1):
+                    out.append((b, lab, "some" if lab == 0 else "none"))
+        elif t["ty"] == "bool":
+            tt, neg = on, False
+            while tt[0] == "un" and tt[1] == "Not":
+                tt, neg = tt[2], not neg
+            if tt[0] == "call" and tt[1].rsplit("::", 1)[-1] in ("is_none", "is_some") and len(tt[2]) == 1 and is_subject(tt[2][0]):
+                for lab, _tgt in fn.cfg.succ_edges[b]:
+                    truth = edge_truth(on, lab, vals)
+                    if truth is None:
+                        continue
+                    truth = truth != neg
+                    is_some = (tt[1].rsplit("::", 1)[-1] == "is_some") == truth
+                    out.append((b, lab, "some" if is_some else "none"))
+    return out
+
+
+def option_payload(t):
+    """X when t denotes the payload of the Option X: X.unwrap()/expect(), the field of its Some variant (if let / match),
+    or the Continue payload of `X?`; else None"""
+    s_ = P.strip(t, calls=False)
+    if s_[0] == "call" and s_[1].rsplit("::", 1)[-1] in ("unwrap", "expect") and s_[2] and "Option" in s_[1]:
+        return s_[2][0]
+    if s_[0] == "field" and s_[1][0] == "variant":
+        if s_[1][2] == "Some":
+            return s_[1][1]
+        if s_[1][2] == "Continue":
+            return _try_subject(s_[1][1])
+    return None
